@@ -21,7 +21,8 @@ run_demo() {  # runs demo in cwd; returns its exit status
   cp "$S/demo_test.go" "$pkgdir/$f"
   local extra=""
   grep -q '"needs_race": *true' "$S/meta.json" 2>/dev/null && extra="-race"
-  (cd $pkgdir && timeout 900 go test -vet=off -count=1 $extra -run 'TestSeed|TestDemo' . ) > "$W/../$NAME.demo.out" 2>&1
+  local names=$(grep -oE '^func (Test[A-Za-z0-9_]+)' "$S/demo_test.go" | awk '{print $2}' | paste -sd'|')
+  (cd $pkgdir && timeout 900 go test -vet=off -count=1 $extra -run "^($names)\$" . ) > "$W/../$NAME.demo.out" 2>&1
   local rc=$?
   rm -f "$pkgdir/$f"
   return $rc
